@@ -65,7 +65,8 @@ Inductive wop :=
 | OSetVec (n : N).                     (* set_vector(n, some vector) *)
 
 Inductive hop :=
-| HTxn (ops : list wop) (commit : bool)   (* begin_write; ops; commit or drop *)
+| HTxn (ops : list wop) (commit : bool)   (* begin_write; ops; then commit() succeeds (true), or the transaction is dropped
+                                              or commit() returns an error before its CommitTx record is logged (false) *)
 | HCompact                                 (* Db::compact *)
 | HCheckpoint                              (* Db::checkpoint (= compact in the code) *)
 | HCloseReopen                             (* Db::close (checkpoint_on_close); Db::open *)
